@@ -400,7 +400,7 @@ def fieldSetters : String → List (String × Nat × Nat × Policy)
   | "RxAppCntAns" => [("set_rx_app_cnt", 0, 16, .mask)]
   | "PackageVersionAns" => [("package_identifier", 0, 8, .mask), ("package_version", 8, 8, .mask)]
   | "McGroupStatusReq" => [("req_group_mask", 0, 4, .mask)]
-  | "McGroupSetupReq" => [("mc_group_id_header", 0, 8, .mask), ("mc_addr", 8, 32, .mask), ("min_mc_fcount", 168, 32, .mask), ("max_mc_fcount", 200, 32, .mask)]
+  | "McGroupSetupReq" => [("mc_group_id_header", 0, 2, .mask), ("mc_addr", 8, 32, .mask), ("min_mc_fcount", 168, 32, .mask), ("max_mc_fcount", 200, 32, .mask)]
   | "McGroupSetupAns" => [("mc_group_id_header", 0, 2, .mask)]
   | "McGroupDeleteReq" => [("mc_group_id_header", 0, 2, .mask)]
   | "McGroupDeleteAns" => [("mc_group_id_header", 0, 2, .mask), ("mc_group_undefined", 2, 1, .mask)]
